@@ -46,12 +46,18 @@ pub struct ChunkReader {
     fail_at: Option<usize>,
     /// transient fault: only the first call at the offset fails
     one_shot: bool,
+    /// kind of the injected error (`Other` unless set)
+    kind: io::ErrorKind,
     pub error_returned: Arc<AtomicBool>,
 }
 
 impl ChunkReader {
     pub fn transient(mut self) -> Self {
         self.one_shot = true;
+        self
+    }
+    pub fn with_kind(mut self, kind: io::ErrorKind) -> Self {
+        self.kind = kind;
         self
     }
     pub fn new(data: Arc<Vec<u8>>, schedule: Vec<usize>, fail_at: Option<usize>) -> Self {
@@ -63,6 +69,7 @@ impl ChunkReader {
             next_chunk: 0,
             fail_at,
             one_shot: false,
+            kind: io::ErrorKind::Other,
             error_returned: Arc::new(AtomicBool::new(false)),
         }
     }
@@ -87,7 +94,7 @@ impl BufRead for ChunkReader {
         if let Some(o) = self.fail_at.filter(|_| !(self.one_shot && self.error_returned.load(Ordering::SeqCst))) {
             if self.pos == o || (o >= self.data.len() && self.pos >= self.data.len()) {
                 self.error_returned.store(true, Ordering::SeqCst);
-                return Err(io::Error::new(io::ErrorKind::Other, "injected read fault"));
+                return Err(io::Error::new(self.kind, "injected read fault"));
             }
             if o > self.pos && o < end {
                 end = o;
@@ -354,6 +361,25 @@ fn detection_window(container: &Container, bytes: &[u8]) -> usize {
     }
 }
 
+const BGZF_HEADER_EOF: &str = "bgzf-block-header-unexpected-eof-taken-for-end-of-stream";
+
+/// Is byte offset `o` inside the 18-byte header of a BGZF block of `bytes`?
+fn in_bgzf_header(container: &Container, bytes: &[u8], o: usize) -> bool {
+    if !matches!(container, Container::VcfGz(_) | Container::Bcf(_)) {
+        return false;
+    }
+    let mut start = 0usize;
+    while start + 18 <= bytes.len() {
+        if o >= start && o < start + 18 {
+            return true;
+        }
+        // BSIZE (total block size - 1) sits at bytes 16..18 of the block
+        let bsize = u16::from_le_bytes([bytes[start + 16], bytes[start + 17]]) as usize + 1;
+        start += bsize;
+    }
+    o >= start
+}
+
 fn eval_cs(ctx: &Ctx, case: &CsChunkCase) -> Verdict {
     let (bytes, _) = render(&case.cs, &case.container);
     let window = detection_window(&case.container, &bytes);
@@ -402,8 +428,16 @@ fn eval_cs(ctx: &Ctx, case: &CsChunkCase) -> Verdict {
     let mut surfaced = 0u64;
     for &o in &offsets {
         // first chunk large enough that detection is not the issue under test here
-        for transient in [false, true] {
-            let mut r = ChunkReader::new(data.clone(), schedule(window.max(64) + (o % 5), &case.later, false), Some(o));
+        for (transient, kind) in [(false, io::ErrorKind::Other), (true, io::ErrorKind::Other), (false, io::ErrorKind::UnexpectedEof), (false, io::ErrorKind::BrokenPipe)] {
+            // an error of kind UnexpectedEof is what a truncated lower layer reports; noodles-bgzf
+            // takes it for the end of the stream when it arrives inside a block header (open finding)
+            if kind == io::ErrorKind::UnexpectedEof && in_bgzf_header(&case.container, &data, o) {
+                if ctx.findings.is_open("C18", BGZF_HEADER_EOF) && !ctx.strict {
+                    pass.excluded.push(BGZF_HEADER_EOF.to_string());
+                    continue;
+                }
+            }
+            let mut r = ChunkReader::new(data.clone(), schedule(window.max(64) + (o % 5), &case.later, false), Some(o)).with_kind(kind);
             if transient {
                 r = r.transient();
             }
@@ -413,7 +447,7 @@ fn eval_cs(ctx: &Ctx, case: &CsChunkCase) -> Verdict {
                 surfaced += 1;
                 if let CreateResult::Spectrum(shape, _, sites) = &got {
                     fail!(
-                        "{} call set ({len} bytes, {} records, {} threads): the reader failed {} at byte offset {o} but creation succeeded with shape {shape:?} after {sites} sites",
+                        "{} call set ({len} bytes, {} records, {} threads): the reader failed {} with an error of kind {kind:?} at byte offset {o} but creation succeeded with shape {shape:?} after {sites} sites",
                         case.container.label(),
                         case.cs.records.len(),
                         case.threads,
@@ -766,6 +800,56 @@ fn eval_spectrum_pipe(ctx: &Ctx, case: &SpectrumPipeCase) -> Verdict {
     Ok(Pass::new().nontrivial(case.first < 6).label(if case.text { "text" } else { "npy" }).label(args[0].to_string()))
 }
 
+#[derive(Clone, Debug, Serialize, Deserialize)]
+pub struct LateFaultCase {
+    pub cells: usize,
+    /// 0 = view -O npy, 1 = view (text), 2 = fold (text)
+    pub command: u8,
+}
+
+fn eval_late_fault(ctx: &Ctx, case: &LateFaultCase) -> Verdict {
+    let dir = ctx.worker_dir(crate::engine::worker_id());
+    let n = case.cells;
+    let spec = crate::model::spec::Spec::new(vec![n], (0..n).map(|i| (i % 89) as f64 + 0.25).collect());
+    std::fs::write(dir.join("late.sfs"), crate::props::common::text_bytes_exact(&spec)).expect("write");
+    let args = match case.command {
+        0 => "view -O npy late.sfs",
+        1 => "view --precision 4 late.sfs",
+        _ => "fold --precision 4 late.sfs",
+    };
+    let bin = ctx.sfs_bin.to_string_lossy().into_owned();
+    let reference = crate::cli::run_bin(ctx, std::path::Path::new("/bin/bash"), &["-c", &format!("\"{bin}\" {args} > late.out")], crate::cli::Input::Null, &dir, &[]);
+    ensure!(reference.ok(), "`sfs {args} > file` failed without any limit: {}", reference.describe());
+    let full = std::fs::metadata(dir.join("late.out")).map(|m| m.len() as usize).unwrap_or(0);
+    ensure!(full > 0, "`sfs {args} > file` wrote nothing");
+    // limits (in KiB) below the output size: 0, 1, ..., the last one that still truncates
+    let last = (full - 1) / 1024;
+    let mut limits: Vec<usize> = (0..=last).collect();
+    if limits.len() > 12 {
+        let keep: Vec<usize> = (0..12).map(|i| i * last / 11).collect();
+        limits.retain(|l| keep.contains(l));
+    }
+    let mut tried = 0u64;
+    for k in limits {
+        let _ = std::fs::remove_file(dir.join("late.out"));
+        let script = format!("trap '' XFSZ; ulimit -f {k}; \"{bin}\" {args} > late.out");
+        let run = crate::cli::run_bin(ctx, std::path::Path::new("/bin/bash"), &["-c", &script], crate::cli::Input::Null, &dir, &[]);
+        let written = std::fs::metadata(dir.join("late.out")).map(|m| m.len() as usize).unwrap_or(0);
+        ensure!(!run.panicked(), "`sfs {args}` with stdout limited to {k} KiB panicked: {}", run.describe());
+        ensure!(
+            matches!(run.code, Some(c) if c != 0),
+            "`sfs {args} > file` where the file may not grow beyond {k} KiB: the output needs {full} bytes, only {written} arrived, yet the exit status is {:?} and stderr is {:?}",
+            run.code,
+            crate::cli::cut(&run.stderr_str(), 200)
+        );
+        ensure!(!run.stderr.is_empty(), "`sfs {args}` with stdout limited to {k} KiB: no diagnostic");
+        tried += 1;
+    }
+    let mut pass = Pass::new().nontrivial(full > 1024).label(["view -O npy", "view (text)", "fold (text)"][case.command as usize % 3].to_string());
+    pass.count("limits-tried", tried);
+    Ok(pass)
+}
+
 fn eval_epipe(ctx: &Ctx, case: &DevFullCase) -> Verdict {
     let dir = ctx.worker_dir(crate::engine::worker_id());
     let n = case.cells;
@@ -794,7 +878,7 @@ pub fn check(ctx: &Ctx) -> Check {
         }),
         Box::new(RandomPart {
             name: "callset-chunks-and-faults",
-            rule: "call sets in all four containers (generated BGZF layouts) through the hooked genotype::reader::Builder::build_from_bufread (format/compression detection included) and the site-reader loop, threads 1/2/4: first chunk length enumerated 1..min(len,300) (+ one-byte-at-a-time for the shortest), result (spectrum or error) must equal the one-slice result; read fault at every offset < 300 plus 24 sampled offsets, the last byte and end-of-data, each as a persistent and as a one-off fault: if the error was returned, creation must fail; non-trivial = a first chunk shorter than the container's detection window, or a fault that reached the consumer",
+            rule: "call sets in all four containers (generated BGZF layouts) through the hooked genotype::reader::Builder::build_from_bufread (format/compression detection included) and the site-reader loop, threads 1/2/4: first chunk length enumerated 1..min(len,300) (+ one-byte-at-a-time for the shortest), result (spectrum or error) must equal the one-slice result; read fault at every offset < 300 plus 24 sampled offsets, the last byte and end-of-data, each as a persistent and as a one-off fault of kind Other, and as persistent faults of kind UnexpectedEof (what a truncated lower layer reports) and BrokenPipe: if the error was returned, creation must fail (UnexpectedEof inside a BGZF block header is an open dependency finding, excluded by offset and counted); non-trivial = a first chunk shorter than the container's detection window, or a fault that reached the consumer",
             cases: ctx.tier.pick(64, 1500),
             strategy: Box::new(|| cs_case_strategy().boxed()),
             eval: Box::new(eval_cs),
@@ -832,6 +916,21 @@ pub fn check(ctx: &Ctx) -> Check {
                 v
             }),
             eval: Box::new(eval_epipe),
+        }),
+        Box::new(crate::engine::EnumPart {
+            name: "stdout-late-fault",
+            rule: "`sfs view` (text and npy) and `sfs fold` writing to a redirected stdout whose file may not grow beyond k KiB (RLIMIT_FSIZE with SIGXFSZ ignored, so the write beyond the limit fails with EFBIG as a full disk would with ENOSPC), for outputs of 136 B .. 40 KiB and every k from 0 to just below the output size (at most 12 values of k per output): the fault lies in the middle or in the last partial block of the stream; the run must exit non-zero with a diagnostic -- a success would leave a truncated spectrum behind",
+            exhaustive: false,
+            cases: Box::new(|_| {
+                let mut v = Vec::new();
+                for cells in [1usize, 100, 112, 113, 250, 500, 1000, 5000] {
+                    for command in 0..3u8 {
+                        v.push(LateFaultCase { cells, command });
+                    }
+                }
+                v
+            }),
+            eval: Box::new(eval_late_fault),
         }),
         Box::new(crate::engine::EnumPart {
             name: "stdout-enospc",
